@@ -7,6 +7,8 @@ package lexer
 
 //@ spec nl(s string, i int) int
 //@ axiom nl0: forall s string :: nl(s, 0) == 0
+// monotonicity: a lemma that follows from nl0/nlS by induction (stated as an axiom: the solvers do no induction)
+//@ axiom nlMono: forall s string, i int, j int :: 0 <= i && i <= j && j <= len(s) ==> nl(s, i) <= nl(s, j)
 //@ axiom nlS: forall s string, i int :: 0 <= i && i < len(s) ==> nl(s, i+1) == nl(s, i) + ite(s[i] == '\n', 1, 0)
 
 //@ pred lline(l *Lexer) = l.curLine == 1 + nl(l.input, min(l.readPosition, len(l.input)))
@@ -41,11 +43,17 @@ package lexer
 //@ pred lsame(l *Lexer) = l.input == old(l.input) && l.inside == old(l.inside)
 //@ pred lprogress(l *Lexer) = linv(l) && l.input == old(l.input) && l.position >= old(l.position) && fuel(l) <= old(fuel(l))
 
+//@ pred blank(c byte) = c == ' ' || c == '\t' || c == '\n' || c == '\r'
+
+// C18: whitespace between tokens is skipped, and nothing else is
 //@ func (l *Lexer) skipWhitespace
 //@ requires linv(l)
 //@ ensures inv: lprogress(l) && l.inside == old(l.inside)
+//@ ensures stop: !blank(l.ch)
+//@ ensures skipped: forall j int :: old(l.position) <= j && j < l.position ==> j < len(l.input) && blank(l.input[j])
 //@ assigns l.ch, l.position, l.readPosition, l.curLine
 //@ loop 1: invariant linv(l) && l.input == old(l.input) && l.inside == old(l.inside) && l.position >= old(l.position) && fuel(l) <= old(fuel(l))
+//@ loop 1: invariant skipped: forall j int :: old(l.position) <= j && j < l.position ==> j < len(l.input) && blank(l.input[j])
 //@ loop 1: decreases fuel(l)
 
 //@ func (l *Lexer) readIdentifier
@@ -99,13 +107,20 @@ package lexer
 //@ loop 1: invariant moved: l.position > old(l.position) ==> fuel(l) < old(fuel(l))
 //@ loop 1: decreases fuel(l)
 
+// C15: a token is stamped with the line on which it begins (tokstart = first non-blank byte);
+// after a # comment the stamp is that of the token that follows (not earlier than the comment).
 //@ func (l *Lexer) nextInsideToken
 //@ requires linv(l)
+//@ ghost tokstart = l.position after skipWhitespace
 //@ ensures inv: lprogress(l)
+//@ ensures begins: old(l.position) <= tokstart && (forall j int :: old(l.position) <= j && j < tokstart ==> j < len(l.input) && blank(l.input[j]))
+//@ ensures stamp: !(tokstart < len(l.input) && l.input[tokstart] == '#') ==> result.LineNumber == 1 + nl(l.input, min(tokstart, len(l.input)))
+//@ ensures stampc: tokstart < len(l.input) && l.input[tokstart] == '#' ==> result.LineNumber >= 1 + nl(l.input, tokstart)
 //@ ensures progress: result.Type != token.EOF ==> fuel(l) < old(fuel(l))
 //@ assigns l.ch, l.position, l.readPosition, l.curLine, l.inside
 //@ decreases fuel(l)
 //@ loop 1: invariant linv(l) && l.input == old(l.input) && fuel(l) <= old(fuel(l))
+//@ loop 1: invariant after: tokstart <= l.position && tokstart < len(l.input) && l.input[tokstart] == '#'
 //@ loop 1: invariant once: fuel(l) < old(fuel(l)) || l.ch == '#'
 //@ loop 1: decreases fuel(l)
 
